@@ -4,6 +4,7 @@
 //!   `<id> c10 <period> <input-hex>`      LZ10CompressionFormat::compress  -> `ok <hex> rt=ok|bad`
 //!   `<id> c13 <period> <input-hex>`      LZ13CompressionFormat::compress  -> `ok <hex> rt=ok|bad alloc=ok|big`
 //!   `<id> d10|d13|f10|f13 <stream-hex>`  decompress (f* = through CompressionFormat) -> `ok <hex> x=ok|diff` | `err Invalid x=…` | `panic`
+//!   `<id> h10|h13|hf13 <stream-hex>`         as d10 / d13 / f13, output printed as `ok n=<len>,fnv=<FNV-1a 64>` (expansions >= 16 MiB)
 //!   `<id> g10|g13 <kind> <r> <m> s<seed> <n>`  C10 bounds on a *generated* periodic input (sent as parameters, not
 //!                                        as hex; both sides rebuild it with the same splitmix64): see `gen_pattern`
 //! `period` = a period of the input claimed by the generator (0 = none claimed).
@@ -605,6 +606,73 @@ fn gen_decode(out: &mut Out, rng: &mut Rng, thorough: bool, scale: usize) {
     }
 }
 
+fn fnv_bytes(b: &[u8]) -> u64 {
+    let mut h: u64 = 0xcbf29ce484222325;
+    for x in b {
+        h ^= *x as u64;
+        h = h.wrapping_mul(0x100000001b3);
+    }
+    h
+}
+
+/// Conforming LZ11 streams around and above the 2^24 boundary of the 24-bit length field: `k` literals, then
+/// references of length `len` at displacement `disp` until exactly `target` bytes are produced (the stream is
+/// ~1 KB; the 16+ MiB output is printed as length + hash: ops h10 / h13 / hf13).
+fn big_stream(rng: &mut Rng, k: usize, len: usize, disp: usize, target: usize) -> Vec<u8> {
+    let mut toks: Vec<Tok> = (0..k).map(|_| Tok::Lit(rng.next() as u8)).collect();
+    let mut have = k;
+    while target - have >= len + 3 {
+        toks.push(Tok::Ref(len, disp.min(have)));
+        have += len;
+    }
+    let mut rem = target - have;
+    if rem > 65808 {
+        toks.push(Tok::Ref(3, disp.min(have)));
+        have += 3;
+        rem -= 3;
+    }
+    if rem >= 3 {
+        toks.push(Tok::Ref(rem, disp.min(have)));
+    } else {
+        for _ in 0..rem {
+            toks.push(Tok::Lit(rng.next() as u8));
+        }
+    }
+    encode(true, target, &toks, rng.next() as u8)
+}
+
+fn gen_big(out: &mut Out, rng: &mut Rng, thorough: bool) {
+    const B: usize = 1 << 24;
+    // (entry point, wrapped, literals, reference length, displacement, total)
+    // quick: the three boundary sizes (each costs ~1.5 s in the Lean driver: two 16 MiB expansions, model and spec);
+    // thorough: more shapes and larger totals
+    let k0 = rng.range(1, 400) as usize;
+    let mut plan: Vec<(&str, bool, usize, usize, usize, usize)> = vec![
+        ("h13", false, 5, 65808, 5, B - 1),             // largest length the 24-bit field holds (4-byte header)
+        ("h10", false, 1, 65808, 1, B),                 // smallest length that needs the extended word
+        ("hf13", true, k0, 65807, k0.min(4096), B + 1), // low byte of the extended word != 0, 0x13 wrapper
+    ];
+    let extra = rng.range(2, 2_000_000) as usize;
+    plan.push(("h13", true, 4096, 4096, 4096, B + extra)); // a random total of 16-18 MiB, window-edge displacement
+    if thorough {
+        plan.push(("hf13", true, 4096, 273, 4095, B + 3 * extra));
+        plan.push(("h10", false, 2, 65807, 2, B + 256));
+        plan.push(("h13", true, 7, 273, 3, B + 65_536));
+        plan.push(("h13", false, 100, 65808, 64, 3 * B + 12_345));
+        plan.push(("h10", false, 9, 4369, 9, B - 1));
+        plan.push(("hf13", true, 1, 65808, 1, 2 * B));
+    }
+    for (op, wrapped, k, len, disp, target) in plan {
+        let s = big_stream(rng, k, len, disp, target);
+        if wrapped {
+            let w = wrap13(rng, &s);
+            out.dec(op, &w);
+        } else {
+            out.dec(op, &s);
+        }
+    }
+}
+
 fn code_parity(v: &[u8]) -> bool {
     v.iter().fold(0u32, |a, b| a.wrapping_mul(31).wrapping_add(*b as u32)) % 2 == 0
 }
@@ -657,6 +725,7 @@ pub fn gen_for(pid: Option<&str>, seed: u64, tier: &str) -> Vec<String> {
         }
         Some("C11") => {
             gen_decode(&mut out, &mut rng, thorough, 6);
+            gen_big(&mut out, &mut rng, thorough);
         }
         _ => {
             out.ops = vec!["c10", "c13", "b10", "b13"];
@@ -664,6 +733,7 @@ pub fn gen_for(pid: Option<&str>, seed: u64, tier: &str) -> Vec<String> {
             gen_periodic(&mut out, &mut rng, thorough, true);
             gen_overlap(&mut out, &mut rng, thorough);
             gen_decode(&mut out, &mut rng, thorough, 1);
+            gen_big(&mut out, &mut rng, thorough);
         }
     }
     out.lines
@@ -752,19 +822,21 @@ pub fn run_line(_st: &mut super::State, line: &str) -> String {
                 }
             }
         }
-        "d10" | "d13" | "f10" | "f13" => {
+        "d10" | "d13" | "f10" | "f13" | "h10" | "h13" | "hf13" => {
             let s = unhex(f[2]);
+            let summ = f[1].starts_with('h');
             let r = no_panic(|| match f[1] {
-                "d10" => (LZ10CompressionFormat {}).decompress(&s),
-                "d13" => (LZ13CompressionFormat {}).decompress(&s),
+                "d10" | "h10" => (LZ10CompressionFormat {}).decompress(&s),
+                "d13" | "h13" => (LZ13CompressionFormat {}).decompress(&s),
                 "f10" => CompressionFormat::LZ10(LZ10CompressionFormat {}).decompress(&s),
                 _ => CompressionFormat::LZ13(LZ13CompressionFormat {}).decompress(&s),
             });
             match r {
                 Err(_) => "panic".to_string(),
                 Ok(res) => {
-                    let x = if f[1] == "d10" || f[1] == "f10" { cross_check(&s, &res) } else { "x=ok" };
+                    let x = if f[1] == "d10" || f[1] == "f10" || f[1] == "h10" { cross_check(&s, &res) } else { "x=ok" };
                     match res {
+                        Ok(d) if summ => format!("ok n={},fnv={} {}", d.len(), fnv_bytes(&d), x),
                         Ok(d) => format!("ok {} {}", hex(&d), x),
                         Err(_) => format!("err Invalid {}", x),
                     }
